@@ -189,11 +189,20 @@ fn record(a: &Args) {
         let nr = 1 + rng.below(4);
         let mut tree = PageLabelTree::new();
         let mut pages: Vec<u32> = Vec::new();
-        for _ in 0..nr {
-            let pg = if rng.chance(1, 3) { 0 } else { rng.below(60) as u32 };
-            let style = *rng.pick(&styles);
-            let prefix = *rng.pick(&prefixes);
-            let start = if rng.chance(1, 2) { *rng.pick(&starts) } else { 1 + rng.below(1500) as u32 };
+        // every third case is a multi-volume numbering: adjacent ranges of ONE style whose numbers continue where the
+        // previous range stopped, told apart only by their prefixes ("A-1".."A-5", "B-6".."B-9", ...)
+        let continuous = c % 3 == 1;
+        let (cstyle, mut cpg, mut cstart) = (*rng.pick(&["D", "R", "a"]), 0u32, 1 + rng.below(40) as u32);
+        for ri in 0..(if continuous { nr.max(2) } else { nr }) {
+            let pg = if continuous { cpg } else if rng.chance(1, 3) { 0 } else { rng.below(60) as u32 };
+            let style = if continuous { cstyle } else { *rng.pick(&styles) };
+            let prefix = if continuous { ["A-", "B-", "C-", "", "D-"][ri as usize % 5] } else { *rng.pick(&prefixes) };
+            let start = if continuous { cstart } else if rng.chance(1, 2) { *rng.pick(&starts) } else { 1 + rng.below(1500) as u32 };
+            if continuous {
+                let len = 1 + rng.below(9) as u32;
+                cpg += len;
+                cstart += len;
+            }
             // roman numerals and letters of astronomically large numbers are megabytes long: keep those styles
             // to numbers whose labels stay printable; decimal takes the large values
             let start = if style != "D" && style != "none" && start > 100_000 { 4000 + (start % 1000) } else { start };
@@ -220,10 +229,12 @@ fn record(a: &Args) {
         if c == 0 {
             // outcome probes with starting values at the top of the u32 range
             for (style, start, off) in [("D", u32::MAX, 0u32), ("D", u32::MAX, 1), ("D", u32::MAX - 5, 700), ("none", u32::MAX, 9),
-                                        ("D", 2_147_483_648, 5)] {
+                                        ("D", 2_147_483_648, 5), ("D", u32::MAX - 2, 3), ("D", 4_000_000_000, 294_967_296), ("D", 999_999_999, 1)] {
                 let lab = mk_label(style, "", start);
                 let r = guarded(move || lab.format_label(off));
-                out.line(&json!({"ev": "probe", "style": style, "start": start.to_string(), "offset": off,
+                let digits_of = |t: &str| t.chars().filter_map(|ch| ch.to_digit(10)).collect::<Vec<u32>>();
+                out.line(&json!({"ev": "probe", "style": style, "start": start.to_string(), "startDigits": digits_of(&start.to_string()), "offset": off,
+                                 "digits": r.as_ref().map(|t| digits_of(t)).unwrap_or_default(),
                                  "outcome": if r.is_ok() { "value" } else { "panic" }, "detail": format!("{:?}", r)}));
             }
         }
